@@ -253,3 +253,11 @@ Proof.
   - intros ds g1 g2 v. apply (last_definition_wins _ _ reader_generated_ok).
   - reflexivity.
 Qed.
+
+Lemma T_cached_phi_reused_only_for_same_pressure_and_temperature :
+  (forall pr_in p pr_p t pr_tk,
+     evalB (env_of [pr_in; p; pr_p; t; pr_tk]) pp_phi_cache_guard <-> (pr_in = 0 \/ p <> pr_p \/ t <> pr_tk)) /\
+  (forall pr_in p pr_p t pr_tk,
+     evalB (env_of [pr_in; p; pr_p; t; pr_tk]) sb_phi_cache_guard <-> (pr_in = 0 \/ p <> pr_p \/ t <> pr_tk)) /\
+  pp_calc_PR_call = "calc_PR(phase_ptrs, p, t, 0)"%string /\ sb_calc_PR_call = "calc_PR(phase_ptrs, p, t, 0)"%string.
+Proof. exact phi_cache_guards. Qed.
